@@ -398,17 +398,24 @@ def pipeline(chk, repo, w):
              f"{OC}.add": opaque("add"), f"{CCM}.multiply_clear_cofactor_{g}": opaque("clear" + g)}
         for qn in S:
             repo.func(qn)
-        it = Interp(w, summaries=S)
         f = repo.func(f"{H2C}.hash_to_{g}")
-        r = it.call_func(f, [msg, dst, Hf], {})
+        from ..interp import enumerate_paths
+        hpaths = enumerate_paths(w, lambda it, f=f: it.call_func(f, [msg, dst, Hf], {}), summaries=S)
         hf = Term("hash_to_field", (cnt, msg, 2, dst, Hf), "seq")
 
         def mp(i):
             s = Term("sswu" + g, (Term("item", (hf, i), "field"),), "point")
             return Term("iso" + g, tuple(Term("item", (s, j), "field") for j in range(3)), "point")
         want = Term("clear" + g, (Term("add", (mp(0), mp(1)), "point"),), "point")
-        chk.ob("C10.R1", f.qualname, f"clear_cofactor(iso(sswu(u0)) + iso(sswu(u1))), (u0, u1) = hash_to_field(msg, 2, DST, H)",
-               r is want, f"got {show(r)[:200]}", f.where)
+        badp = []
+        for pth in hpaths:
+            pd = " ".join(pth.branch_lines()[-3:]) or "(straight line)"
+            if pth.outcome != "return":
+                badp.append(f"raises {pth.value.clsname()} at {pth.value.where} on path {pd}")
+            elif _hashable(pth.value) is not want:
+                badp.append(f"got {show(pth.value)[:200]} on path {pd}")
+        chk.ob("C10.R1", f.qualname, f"clear_cofactor(iso(sswu(u0)) + iso(sswu(u1))), (u0, u1) = hash_to_field(msg, 2, DST, H), on every path",
+               not badp and bool(hpaths), "; ".join(badp[:2]) or f"{len(hpaths)} path(s)", f.where)
 
 
 def run(chk, repo, tier):
